@@ -8,6 +8,8 @@
 mod rng;
 mod sx;
 mod c08;
+mod c09;
+mod c10;
 mod c13;
 mod c17;
 
@@ -28,6 +30,7 @@ fn prop(id: &str) -> Prop {
     match id {
         "C08" => Prop { gen: c08::gen, run: c08::run },
         "C17" => Prop { gen: c17::gen, run: c17::run },
+        "C10" => Prop { gen: c10::gen, run: c10::run },
         "C13" => Prop { gen: c13::gen, run: c13::run },
         _ => { eprintln!("unknown property {}", id); std::process::exit(2) }
     }
